@@ -325,6 +325,7 @@ pub fn property() -> Property {
             name: "single-call",
             rule: "see property rule",
             cases: (1_500_000, 5_000_000),
+            fuzz_decode: Some(crate::fuzzdec::c09_case),
             strategy,
             check,
             required_classes: &[
